@@ -31,6 +31,14 @@ CLAIMS = {
         technique="TLA+ state machine of raw/integer vectors (SDSVec.Step); TLC explores call histories exhaustively and by random walk and the harness replays them on the real vectors; random real histories validated by TLC; history independence checked against a canonically built real vector after every call",
         text="Model-based conformance over operation histories: TLC enumerates all call histories of depth 2 (3 thorough) over real widths {1,7,31,32,33,63,64} with boundary values (all ones, top bit of the field, wider than the item) and random walks of depth 30-40 through the Layer A machine; the harness executes each on the real IntVector/RawVector and after EVERY call compares the result, the projected content, and - against a second real vector built canonically from the specification's state - ==, byte-identical serialization and count_ones. In the other direction random histories at widths 1..64 with arbitrary 64-bit values are validated by TLC step by step (result, state, history independence).",
         design_ref="DESIGN.md section 6, C05"),
+    "C09": dict(
+        technique="Layer A operators defined on the extended argument domain (huge tokens); TLC-generated cases with extreme arguments replayed on debug AND optimized builds of all structures, iterators and constructors; real traces from the optimized build validated by TLC",
+        text="The specification defines an answer for every argument class incl. 'huge' (greater than any length). TLC-generated cases (all contents <= 6-8 bits, boundary family up to 4097 bits, multi-word contents; all wavelet-matrix vectors over {0..3}; the transition cover of the iterator machine with nth/nth_back(huge); constructor cases over small values and usize::MAX - d) are replayed with every huge token instantiated as 2^32, 2^62+12345, 2^63, 2^63+1, MAX-1, MAX and 2len+7 on the three bitvector types, all iterator types, WaveletMatrix/WMCore (values up to u64::MAX) and the constructors, on a debug build (overflow checks) and an optimized build (wrapping arithmetic): both must return the defined value, a panic is a disagreement; the three bitvector types agree because each equals the specification. Traces recorded from the optimized build carry the same tokens in every query batch and are validated by TLC.",
+        design_ref="DESIGN.md section 6, C09"),
+    "C10": dict(
+        technique="TLA+ window machine for iterators (SDSIter) with Partition invariant model-checked; its complete transition cover generated by TLC and replayed on every iterator type x content x start point; random call sequences on iterators of large real objects validated by TLC",
+        text="Every iterator is specified as a window [lo,hi) over a reference sequence with next/next_back/nth/nth_back/len/clone as deque operations; TLC model-checks Partition (no index twice, none skipped) and prints, for every item count 0..10 and capability class, every transition of the window graph reached by a shortest history (the VIEW hides the history), followed by a drain. The harness replays all of them on iter/one_iter/zero_iter/run_iter/select_iter/select_zero_iter/predecessor/successor of plain, sparse and run-length vectors for all contents <= 9 bits (10 thorough) and for contents spread over three words (word-crossing scans), and on IntVector/WaveletMatrix iter/into_iter/value_iter/select_iter/predecessor/successor for all vectors over {0,1,2}; exact length after every call, fused after exhaustion. Random call sequences (incl. clone and nth(huge)) on iterators of 2^17..2^19-bit vectors positioned by select_iter/predecessor/successor are validated by TLC, which computes each expected item from the abstract content.",
+        design_ref="DESIGN.md section 6, C10"),
 }
 
 NOT_YET = {}
